@@ -76,13 +76,26 @@ type asyncBackendRoomSubscriber struct {
 }
 
 func (s *asyncBackendRoomSubscriber) processBackendRoomRequest(message *AsyncMessage) {
+	// Iterate over a snapshot: ranging over the map while it is unlocked for
+	// the callbacks may produce a listener twice if it is removed and added
+	// again in the meantime.
 	s.mu.Lock()
-	defer s.mu.Unlock()
-
+	listeners := make([]AsyncBackendRoomEventListener, 0, len(s.listeners))
 	for listener := range s.listeners {
-		s.mu.Unlock()
-		listener.ProcessBackendRoomRequest(message)
+		listeners = append(listeners, listener)
+	}
+	s.mu.Unlock()
+
+	for _, listener := range listeners {
 		s.mu.Lock()
+		_, found := s.listeners[listener]
+		s.mu.Unlock()
+		if !found {
+			// Has been removed while processing other listeners.
+			continue
+		}
+
+		listener.ProcessBackendRoomRequest(message)
 	}
 }
 
@@ -111,13 +124,26 @@ type asyncRoomSubscriber struct {
 }
 
 func (s *asyncRoomSubscriber) processAsyncRoomMessage(message *AsyncMessage) {
+	// Iterate over a snapshot: ranging over the map while it is unlocked for
+	// the callbacks may produce a listener twice if it is removed and added
+	// again in the meantime.
 	s.mu.Lock()
-	defer s.mu.Unlock()
-
+	listeners := make([]AsyncRoomEventListener, 0, len(s.listeners))
 	for listener := range s.listeners {
-		s.mu.Unlock()
-		listener.ProcessAsyncRoomMessage(message)
+		listeners = append(listeners, listener)
+	}
+	s.mu.Unlock()
+
+	for _, listener := range listeners {
 		s.mu.Lock()
+		_, found := s.listeners[listener]
+		s.mu.Unlock()
+		if !found {
+			// Has been removed while processing other listeners.
+			continue
+		}
+
+		listener.ProcessAsyncRoomMessage(message)
 	}
 }
 
@@ -146,13 +172,26 @@ type asyncUserSubscriber struct {
 }
 
 func (s *asyncUserSubscriber) processAsyncUserMessage(message *AsyncMessage) {
+	// Iterate over a snapshot: ranging over the map while it is unlocked for
+	// the callbacks may produce a listener twice if it is removed and added
+	// again in the meantime.
 	s.mu.Lock()
-	defer s.mu.Unlock()
-
+	listeners := make([]AsyncUserEventListener, 0, len(s.listeners))
 	for listener := range s.listeners {
-		s.mu.Unlock()
-		listener.ProcessAsyncUserMessage(message)
+		listeners = append(listeners, listener)
+	}
+	s.mu.Unlock()
+
+	for _, listener := range listeners {
 		s.mu.Lock()
+		_, found := s.listeners[listener]
+		s.mu.Unlock()
+		if !found {
+			// Has been removed while processing other listeners.
+			continue
+		}
+
+		listener.ProcessAsyncUserMessage(message)
 	}
 }
 
@@ -181,13 +220,26 @@ type asyncSessionSubscriber struct {
 }
 
 func (s *asyncSessionSubscriber) processAsyncSessionMessage(message *AsyncMessage) {
+	// Iterate over a snapshot: ranging over the map while it is unlocked for
+	// the callbacks may produce a listener twice if it is removed and added
+	// again in the meantime.
 	s.mu.Lock()
-	defer s.mu.Unlock()
-
+	listeners := make([]AsyncSessionEventListener, 0, len(s.listeners))
 	for listener := range s.listeners {
-		s.mu.Unlock()
-		listener.ProcessAsyncSessionMessage(message)
+		listeners = append(listeners, listener)
+	}
+	s.mu.Unlock()
+
+	for _, listener := range listeners {
 		s.mu.Lock()
+		_, found := s.listeners[listener]
+		s.mu.Unlock()
+		if !found {
+			// Has been removed while processing other listeners.
+			continue
+		}
+
+		listener.ProcessAsyncSessionMessage(message)
 	}
 }
 
